@@ -71,8 +71,26 @@ def uslp_frame(ft, iz, fecf, trunc_len=8, fixed_len=None):
     return dec
 
 
+def stream_parser(nchunks):
+    """the space-packet stream decoder on arbitrary octets, handed over in one or two chunks; two registered packet IDs"""
+    def dec(data):
+        from collections import deque
+        from spacepackets.ccsds.spacepacket import parse_space_packets, PacketId, PacketType
+        ids = [PacketId(PacketType.TM, True, 0x22), PacketId(PacketType.TC, True, 0x33)]
+        n = len(data)
+        # (no bytearray() here: this module's names are not rebound, the real constructor would force every octet concrete)
+        q = deque([data] if nchunks == 1 else [data[:n // 2], data[n // 2:]])
+        out = parse_space_packets(q, ids)
+        out += parse_space_packets(q, ids)
+        return out
+    return dec
+
+
 # name -> (decoder, max length quick, max length thorough)
 DECODERS = {
+    "parse_space_packets(one chunk)": (stream_parser(1), 13, 18),
+    "parse_space_packets(two chunks)": (stream_parser(2), 12, 16),
+
     "SpacePacketHeader.unpack": (SpacePacketHeader.unpack, 8, 10),
     "PusTc.unpack": (PusTc.unpack, 14, 18),
     "PusTm.unpack(t=0)": (lambda d: PusTm.unpack(d, 0), 14, 17),
@@ -202,6 +220,19 @@ def h_prefix(ctx, what, k):
         ctx.holds("prefix rejected with a documented error", documented_decode_error(e), "%s: %s" % (exc_name(e), str(e)[:80]))
 
 
+def h_stream_prefix(ctx, k, nchunks):
+    """the stream decoder is a public decoder too: a stream cut anywhere (inside a header, inside a data field) is never an
+    error for it, and certainly not an undocumented one - the unfinished tail simply waits in the queue"""
+    def packet(name, pid, d):
+        return be(pid, 2) + [ctx.int(name + "_psc_hi", 0, 255), ctx.int(name + "_psc_lo", 0, 255)] + be(d, 2) + items_of(ctx.octets(name, d + 1))
+    stream = packet("p1", 0x0822, 1) + packet("p2", 0x1833, 0) + packet("p3", 0x0822, 2)
+    e, out = call(stream_parser(nchunks), ctx.bytes_of(stream[:k], mutable=True))
+    ctx.holds("a stream cut after %d octets raises nothing" % k, e is None, exc_name(e))
+    if e is None:
+        done = [n for n in (8, 15, 24) if n <= k]
+        ctx.holds("complete packets before the cut are returned", len(out) == len(done), "returned %d, complete %d" % (len(out), len(done)))
+
+
 def h_mutated(ctx, what, positions):
     """a valid packet whose length / type / width octets (given positions) are replaced by arbitrary octets"""
     raw, dec = valid_packet(ctx, what)
@@ -239,6 +270,11 @@ def cases(tier):
                 cs.append(Case("arbview-%s-n%02d" % (name, n), "arbitrary", h_arbitrary, dict(name=name, n=n, view=True), budget=1800,
                                bounds="%s on every octet string of length %d handed over as a memoryview" % (name, n)))
     cs.append(Case("twin", "arbitrary", h_twin, {}, expect_violation=True, bounds="reachability twin"))
+    for k in range(0, 25):
+        for nchunks in (1, 2):
+            cs.append(Case("stream-prefix-k%02d-c%d" % (k, nchunks), "prefix", h_stream_prefix, dict(k=k, nchunks=nchunks),
+                           bounds="three packets of two registered IDs (all sequence-control and data octets), cut after %d octets, "
+                                  "queued as %d chunk(s)" % (k, nchunks)))
     for sub in range(0, 10):
         for k in range(0, tier_pick(tier, 8, 12)):
             for ws, we in ((1, 1), (2, 4)):
